@@ -83,14 +83,66 @@ def run(chk: harness.Check):
         "D2: the MIR expression returned by convert_f64 is canonicalised and compared with the affine formula; Converter::convert_value maps "
         "number, range start and range end through convert_f64 with (from, to) in parameter order. D3: the convert_value call in convert_to_unit "
         "is edge-dominated by equality of the two physical quantities; every assignment to *self in convert_impl is preceded by the fallible steps. "
-        "D4: best_unit receivers come from self.best[unit.physical_quantity].conversions(system). Shape and lineage only — no value is computed from an input.")
+        "D4: best_unit receivers come from self.best[unit.physical_quantity].conversions(system). D6: expand_si gives a prefixed unit ratio = base.ratio * prefix.ratio() "
+        "and the base's difference/quantity/system, and update_expanded_units overwrites all_units[expanded_id] whole with the regenerated unit. Shape and lineage only — no value is computed from an input.")
     chk.trusted = ["tables/units_reference.toml (international definitions)", "rustc const evaluation of float literals", "build.rs transfers TOML values verbatim (checked by the multiset comparison)"]
     d1_units(chk, F)
     d2_shape(chk, F)
     d3_guard(chk, F)
     d4_designated(chk, F)
     d5_fit_range(chk, F)
+    d6_si_expansion(chk, F, "C09.D6-si-expansion")
     chk.analysed["facts"] = th
+
+
+def d6_si_expansion(chk, F, rule):
+    """A prefixed unit is its base unit scaled by the prefix: expand_si gives it ratio = base.ratio * prefix.ratio(),
+    the base's difference / physical quantity / system; and when an `extend` layer edits the base unit,
+    update_expanded_units replaces each generated unit WHOLE by the regenerated one (only aliases are restored)."""
+    from cfgq import aggregates
+    from flow import resolve, resolve_rvalue, leaves, show
+    gs = [g for g in F.find("convert::builder::expand_si") if not g.is_closure()]
+    us = [g for g in F.find("convert::builder::update_expanded_units") if not g.is_closure()]
+    if len(gs) != 1 or len(us) != 1:
+        chk.fail("anchor-missing", "expand_si/update_expanded_units", "", "anchor-missing: expand_si or update_expanded_units not found")
+        return
+    g, u = gs[0], us[0]
+    aggs = aggregates(F, g.key, "convert::Unit")
+    chk.floor(rule, "Unit constructions in expand_si", len(aggs), 1, f"{g.file}:{g.line}")
+    for ff, i, st, d in aggs:
+        where = f"{ff.file}:{st.get('line')}"
+        e = resolve(ff, d["ratio"])
+        ls = leaves(e)
+        txt = show(e, -50)
+        ok = e[0] == "bin" and e[1].startswith("Mul") and any(l.endswith("SIPrefix::ratio") for l in ls) and any(l in ("param:unit", "upvar:unit") for l in ls) and ".ratio Mul " in txt + " " \
+            and not any(op in txt for op in (" Div ", " Add ", " Sub "))
+        chk.expect(ok, rule, "expand_si|ratio", where, f"a prefixed unit's ratio must be base.ratio * prefix.ratio(); it is {txt[:120]}",
+                   sample=f"{where}: ratio = unit.ratio * prefix.ratio()")
+        for fld in ("difference", "physical_quantity", "system"):
+            e = resolve(ff, d[fld])
+            ls = leaves(e)
+            ok = e[0] in ("place", "upvar", "param") and any(l in ("param:unit", "upvar:unit") for l in ls) and show(e, -50).endswith("." + fld)
+            chk.expect(ok, rule, f"expand_si|{fld}", where, f"a prefixed unit must inherit the base unit's {fld}; it gets {show(e, -50)[:100]}",
+                       sample=f"{where}: {fld} = unit.{fld}")
+    whole = []
+    partial = []
+    for i, j, st in u.iter_stmts():
+        if st["k"] != "assign" or not st["place"]["p"]:
+            continue
+        base, proj = u.local_name(st["place"]["l"]), st["place"]["p"]
+        e = resolve_rvalue(u, st["rv"], 0, frozenset(), i)
+        if base == "all_units" and proj[-1].startswith("["):
+            whole.append((i, st, e))
+        elif proj[-1] in (".ratio", ".difference", ".physical_quantity", ".system") and not any(l.endswith("builder::expand_si") for l in leaves(e)):
+            partial.append((i, st, proj[-1]))
+    ok = len(whole) >= 1 and all(any(l.endswith("builder::expand_si") for l in leaves(e)) for _, _, e in whole)
+    chk.expect(ok, rule, "update_expanded_units|whole-replace", f"{u.file}:{u.line}",
+               "update_expanded_units no longer overwrites all_units[expanded_id] with the unit regenerated by expand_si: after an `extend` layer "
+               "changes the base unit's ratio or difference, its prefixed units keep the stale definition",
+               sample=f"{u.file}:{whole[0][1].get('line') if whole else u.line}: all_units[expanded_id] = regenerated unit")
+    for i, st, fld in partial:
+        chk.fail(rule, f"update_expanded_units|stale{fld}", f"{u.file}:{st.get('line')}",
+                 f"update_expanded_units writes {fld} of a generated unit from something other than the regenerated unit (stale definition)")
 
 
 def load_units():
